@@ -77,7 +77,7 @@ class C06(CheckBase):
 
     # ------------------------------------------------------------------ generation
     def gen_case(self, rng, tier, index):
-        level = rng.weighted([(12, 'track'), (1, 'image')])
+        level = rng.weighted([(6, 'track'), (1, 'image')])
         if level == 'track':
             enc = rng.choice(['fm', 'mfm'])
             spt = 10 if enc == 'fm' else rng.choice([16, 18])
